@@ -1208,6 +1208,139 @@ func astTie() {
 	}
 }
 
+// ---------- completeness stream: many distinct honest signatures ----------
+// Honest transactions must be accepted whatever their signature values look like.  A few keys sign
+// thousands of distinct transactions (implementation only); signatures whose r or s has leading zero
+// bytes (shorter big-ints, ~1 in 128 each) are searched for explicitly and also go to the model.
+func sigClass(rb, sb []byte) string { // rb, sb: 32-byte big-endian
+	lead := func(b []byte) int {
+		n := 0
+		for n < len(b) && b[n] == 0 {
+			n++
+		}
+		return n
+	}
+	c := ""
+	if l := lead(rb); l > 0 {
+		c += fmt.Sprintf("r-%d-leading-zero-bytes,", l)
+	} else if rb[0] >= 0x80 {
+		c += "r-above-2^255,"
+	} else {
+		c += "r-below-2^255,"
+	}
+	if l := lead(sb); l > 0 {
+		c += fmt.Sprintf("s-%d-leading-zero-bytes", l)
+	} else if sb[0] >= 0x40 {
+		c += "s-above-2^254"
+	} else {
+		c += "s-below-2^254"
+	}
+	return c
+}
+
+func completenessStream(r *hx.Rng, thorough bool, eval func(class, key string, tx *types.Transaction, honest bool)) {
+	setHeight(100)
+	perKey, keys := 1200, 4
+	if thorough {
+		perKey = 12000
+	}
+	classes := map[string]int{}
+	toModelLeft := map[string]int{}
+	handle := func(path string, tx *types.Transaction, rb, sb []byte) string {
+		cl := sigClass(rb, sb)
+		classes[path+":"+cl]++
+		code, pmsg := runVerify(tx)
+		res.Count("stream-"+path+fmt.Sprintf("/verdict%d", code), string(tx.Hash.Bytes()), false)
+		if code != 0 {
+			res.Violate("C07/complete:honest-"+path+"-rejected:"+cl, fmt.Sprintf("honestly signed %s transaction refused (verdict %d %s); signature class %s", path, code, pmsg, cl), jsonTx(tx))
+		}
+		if strings.Contains(cl, "leading-zero") && toModelLeft[path+cl] < 3 {
+			toModelLeft[path+cl]++
+			eval("honest:"+path+"-short-sig", "C07/complete:honest-"+path+"-rejected:"+cl, tx, true)
+		}
+		return cl
+	}
+	// native
+	want := map[string]bool{"r-1": false, "s-1": false}
+	if thorough {
+		want["r-2"] = false
+	}
+	for k := 0; k < keys; k++ {
+		sk, _, addr := genKey(r)
+		tgt := genString(r)
+		for i := 0; i < perKey; i++ {
+			tx := &types.Transaction{Source: addr, Target: tgt, Type: int32(k), Time: "t", Data: "d" + strconv.Itoa(i), Nonce: uint64(i), ChainId: chainStr}
+			signNative(tx, sk)
+			b := tx.Sign.Bytes()
+			cl := handle("native", tx, b[:32], b[32:64])
+			if strings.Contains(cl, "r-1-leading") {
+				want["r-1"] = true
+			}
+			if strings.Contains(cl, "s-1-leading") {
+				want["s-1"] = true
+			}
+			if strings.Contains(cl, "r-2-leading") {
+				want["r-2"] = true
+			}
+		}
+	}
+	// directed: keep signing (sign only) until the wanted shapes have been seen, then verify those
+	sk, _, addr := genKey(r)
+	for i := 0; i < 400000; i++ {
+		done := true
+		for _, v := range want {
+			done = done && v
+		}
+		if done {
+			break
+		}
+		tx := &types.Transaction{Source: addr, Type: 1, Data: "x" + strconv.Itoa(i), Nonce: uint64(i), ChainId: chainStr}
+		signNative(tx, sk)
+		b := tx.Sign.Bytes()
+		hit := ""
+		switch {
+		case b[0] == 0 && b[1] == 0 && !want["r-2"] && thorough:
+			hit = "r-2"
+		case b[0] == 0 && !want["r-1"]:
+			hit = "r-1"
+		case b[32] == 0 && !want["s-1"]:
+			hit = "s-1"
+		}
+		if hit != "" {
+			want[hit] = true
+			handle("native", tx, b[:32], b[32:64])
+		}
+	}
+	// wrapped Ethereum: r / s with leading zero bytes are shorter integers in the RLP payload
+	ethN := 700
+	if thorough {
+		ethN = 6000
+	}
+	seenShort := 0
+	for k := 0; k < 2; k++ {
+		_, key, _ := genKey(r)
+		base := genEth(r).raw
+		for i := 0; i < ethN || (seenShort < 2 && i < 40*ethN); i++ {
+			raw := base
+			raw.Nonce = uint64(i)
+			eb := signEth(nil, raw, key, chainBig)
+			rb, sb := pad32(eb.raw.R), pad32(eb.raw.S)
+			if i >= ethN && rb[0] != 0 && sb[0] != 0 {
+				continue // past the stream: only the directed shapes are verified
+			}
+			if cl := handle("eth", eb.wrap, rb, sb); strings.Contains(cl, "leading-zero") {
+				seenShort++
+			}
+		}
+	}
+	var cls []string
+	for k, v := range classes {
+		cls = append(cls, fmt.Sprintf("%s=%d", k, v))
+	}
+	sort.Strings(cls)
+	res.Note("completeness stream (honest signatures by shape): " + strings.Join(cls, " "))
+}
+
 // ---------- the chain id changes with the height ----------
 // Mainnet-shaped configuration (OriginalChainId below Proposal001Block, ChainId from it on).  Transactions
 // made for one side of the fork are offered at heights on both sides, in both orders and repeatedly; the
@@ -1477,6 +1610,7 @@ func main() {
 	}
 	res.Note(fmt.Sprintf("two-field boundary shifts (same preimage, same hash and signature, different declared fields; outside the property's single-field quantifier): %d of %d accepted", shiftAccepted, shiftTotal))
 	res.Note("chain id " + chainStr + " at height " + strconv.FormatUint(height, 10))
+	completenessStream(r, thorough, eval)
 	recheck("after other transactions") // flush before the configuration changes
 	forkPhase(r, a.N/3+6, eval, recheck)
 	cs.Close()
